@@ -286,19 +286,31 @@ def small_trees():
 
 # ------------------------------------------------------------------ running the real codemods
 
-def run_codemod(cid: str, sources: list[str]) -> list[str | None]:
-    """the files after one CLI run of `cid` (None = reported failed / CLI crash)"""
+def run_codemod(cid: str, sources: list[str], passes: int = 1):
+    """the files after one CLI run of `cid` (None = reported failed / CLI crash); with `passes` > 1 the list of such lists, one per
+    successive run on the same project directory (a file a run reports failed keeps its text for the next run)"""
     root = common.tmpdir("prec")
     try:
         proj = root / "p"
         e2e.write_project(proj, {f"m{i:04d}.py": s for i, s in enumerate(sources)})
-        r = e2e.run(proj, ["--codemod-include", cid])
-        if r["rc"] != ["exit", 0]:
-            return [None] * len(sources)
-        failed = {f.split("/")[-1] for res in (r["report"] or {}).get("results", []) for f in (res.get("failedFiles") or [])}
-        return [None if f"m{i:04d}.py" in failed else (proj / f"m{i:04d}.py").read_text() for i in range(len(sources))]
+        rounds = []
+        for _ in range(passes):
+            r = e2e.run(proj, ["--codemod-include", cid])
+            if r["rc"] != ["exit", 0]:
+                rounds.append([None] * len(sources))
+                continue
+            failed = {f.split("/")[-1] for res in (r["report"] or {}).get("results", []) for f in (res.get("failedFiles") or [])}
+            rounds.append([None if f"m{i:04d}.py" in failed else (proj / f"m{i:04d}.py").read_text() for i in range(len(sources))])
+        return rounds[0] if passes == 1 else rounds
     finally:
         shutil.rmtree(root, ignore_errors=True)
+
+
+def gen_is_true_over_comparison(rng):
+    """`not (<comparison> is True)`: the shape on which one application of invert-boolean-check leaves a `not <comparison>` behind"""
+    inner = {"k": "cmp", "op": rng.choice(list(COPS)), "l": gen(rng, 0, calls=0.1), "r": gen(rng, 0, calls=0.1), "p": True}
+    c = {"k": "cmp", "op": "is_", "l": inner, "r": {"k": "atom", "n": "True", "p": False}, "p": rng.random() < 0.7}
+    return repair({"k": "lnot", "e": c, "p": rng.random() < 0.3})
 
 
 def test_of(source: str | None, in_def=False):
